@@ -1,6 +1,9 @@
 use std::sync::Arc;
 
+#[cfg(not(feature = "verif"))]
 use parking_lot::RwLock;
+#[cfg(feature = "verif")]
+use rawdb::verif_sync::{RwLock};
 use rawdb::Region;
 
 mod inner;
